@@ -437,6 +437,11 @@ assume func Sprintfn_printer(p *pp)
   may-panic
   ensures-always PI(p) && Same(p) && Kept(p) && WP(p.fmt) && inv(p.buf)
 
+-- The mode of the printer's buffer is switched only by the helpers whose contracts tie it to the Safe/Unsafe context
+-- (and by the two adapters that put back the mode they found): a direct SetMode anywhere else could write operand
+-- data in safe mode under an Unsafe() that a nested printer inherited, without any write-site obligation noticing
+restrict SetMode in rfmt [C02,C05,C06] to pp.startPrint, pp.startUnsafe, pp.startPreRedactable, pp.startSafeOverride, pp.startUnsafeOverride, restorer.restore, pp.Print, pp.Printf "their contracts state which mode goes with which context"
+
 -- C12: the package-level state two calls can share. Everything else a call touches is its own printer.
 shared rfmt.ppFree "sync.Pool is safe for concurrent use and hands an object to one caller at a time (its documented contract); what is Put obeys PoolInv"
 shared rfmt.safeTypeRegistry "written only by RegisterSafeType; registering types while other goroutines print is outside the claim (set-up time configuration), printing only reads it"
